@@ -601,6 +601,7 @@ DeqFail(c) ==        \* Dequeue returned an error (injected)
 
 DeqNextID(c, s, id) ==
   /\ dq[c].pc = "have" /\ s = cl[c].sk
+  /\ G("C08", "FreshIdNotInUse", id \notin OutIds(s))
   /\ G("C18", "IdFromCounter", id = sess[s].next)
   /\ sess' = [sess EXCEPT ![s].next = IdSucc(id)]
   /\ dq' = [dq EXCEPT ![c].pc = "ided", ![c].id = id]
@@ -610,9 +611,20 @@ DeqSave(c, s, pkt) ==
   /\ dq[c].pc = "ided" /\ s = cl[c].sk
   /\ pkt.t = "PUBLISH" /\ pkt.id = dq[c].id /\ SameMsg(pkt.msg, dq[c].msg)
   /\ G("C16", "InflightLeWindow", Len(sess[s].out) < cfg.window)
+  \* a new delivery stored under an id that is still in use would overwrite a message that was not acknowledged yet
+  /\ G("C08", "StoredUntilAcked", pkt.id \notin OutIds(s))
   /\ sess' = [sess EXCEPT ![s].out = Append(SelectSeq(@, LAMBDA x : x.id # pkt.id), [id |-> pkt.id, k |-> "pub", msg |-> pkt.msg])]
   /\ dq' = [dq EXCEPT ![c].pc = "saved"]
   /\ UNCHANGED <<link, up, down, cl, ackq, ackdue, tok, pubctx, retained, cfg, closing, ghost>>
+
+\* the session's packet-id counter is restarted (session.IDCounter.Reset; the pinned broker never does this to a session it keeps:
+\* a clean-session connect gets a new session object).  Harmless while nothing is stored; with unacknowledged packets in the store
+\* the next deliveries would reuse their ids and overwrite them.
+SessCounterReset(s) ==
+  /\ s \in SKeys
+  /\ G("C08", "CounterRestartOnlyWithEmptyStore", Len(sess[s].out) = 0)
+  /\ sess' = [sess EXCEPT ![s].next = 1]
+  /\ UNCHANGED <<link, up, down, cl, dq, ackq, ackdue, tok, pubctx, retained, cfg, closing, ghost>>
 
 DeqSend(c, pkt) ==
   /\ G("C08", "SaveBeforeSend", dq[c].pc = "saved")
